@@ -18,10 +18,10 @@ CLAIMED = {
    "Round-trip / composition testing of the real codecs against independent reference encoders and parsers: a destination from 30 hostile host classes (or an IP) is reference-encoded for an inbound protocol, read by the real reader, handed to the real writer of an outbound protocol (real h11c_connect, SocksRequest::write_to, encode_socks_frame, Frame::make_header / StreamFrameWriter / Fragmentable buffer) and the bytes on the wire are reference-parsed: refusal, or exactly one well-formed message naming the same destination with no residue / extra header. 60 000 (quick) / 600 000 (thorough) cases over all 54 (inbound, outbound) pairs.",
    "Trusted: refcodec (RFC 1928/1929, SOCKS4/4a memos, RFC 7230 head syntax, the RPFM comment); canon() treats a name that is an IP literal as that address; per RFC 7230 §3.5 no whitespace is generated inside an inbound CONNECT target.",
    "proptest round-trip through reference encoder -> real reader -> real writer -> reference parser", "§3 C03"),
- "C05": ("vp-inproc", "exploration",
-   "In-process decoder sweep (part a of the design; the end-to-end liveness part is added to this check when the e2e engine lands): every peer-facing decoder incl. the listener- and connector-side handshakes is fed arbitrary bytes and mutated valid messages under generated segmentations, then EOF; exhaustive (total,seq) header sweep and 0-3 byte datagrams; arbitrary datagram sequences; make_fragments for every MTU 0..65535. Oracle: no panic under dev-profile checks (the shipped profiles abort on panic), termination.",
-   "Trusted: panic capture via catch_unwind in a harness built with panic=unwind over the same sources; dev-profile overflow checks are at least as strict as the release profile.",
-   "proptest mutation fuzzing of valid messages + exhaustive header/MTU enumeration, oracle = no panic / termination", "§3 C05"),
+ "C05": ("both", "exploration",
+   "(a) In-process decoder sweep: every peer-facing decoder incl. the listener- and connector-side handshakes is fed arbitrary bytes and mutated valid messages under generated segmentations, then EOF; exhaustive (total,seq) header sweep and 0-3 byte datagrams; arbitrary datagram sequences; make_fragments for every MTU 0..65535. Oracle: no panic under dev-profile checks (the shipped profiles abort on panic), termination. (b) 48 (quick) / 1 600 (thorough) sequences of 6-17 hostile sessions against one real proxy: mutated valid messages to every TCP listener, on QUIC streams, as datagrams to the SOCKS5 UDP relay / reverse-UDP / QUIC ports, as QUIC datagrams with and without a session, and as upstream replies for every connector kind; after every session the process must run, fresh HTTP / SOCKS5 / QUIC CONNECTs must relay and the API must answer.",
+   "Trusted: panic capture via catch_unwind in a harness built with panic=unwind over the same sources; dev-profile overflow checks are at least as strict as the release profile; (b) 4 s liveness bounds.",
+   "proptest mutation fuzzing of valid messages + exhaustive header/MTU enumeration (in-process) + generated hostile session sequences against the real process, oracle = no panic / termination / liveness afterwards", "§3 C05"),
  "C09": ("vp-inproc", "exploration",
    "The README operator table is transcribed into data; every operator/spelling alone, every expression tree with 2 operator nodes (exhaustive, 2142 trees) and a seeded sample of 8 000 (quick) / all ~170 000 (thorough) trees with 3 operator nodes, plus 2 500 / 400 000 random deeper trees with literals, arrays, tuples, templates, let/if/?:, are printed (i) with only the parentheses the table makes necessary and (ii) fully parenthesised, and with generated blank/comment filler at every token boundary; each rendering must parse to the tree built directly from the builtin constructors.",
    "Trusted: my transcription of the table and the 'necessary parentheses' rule (child parenthesised iff lower precedence, or equal precedence on the non-associative side; different precedence-0 constructs in tail position are always parenthesised because the table does not order them); comments after the last token are not generated (not 'between tokens').",
@@ -59,7 +59,7 @@ CLAIMED = {
    "Trusted: the record is read from the collector list that Context::drop feeds (the same data the access log and /api/history receive).",
    "proptest over tunnel histories (in-process) + generated connection mixes against real processes, oracle = exactly-once accounting, lifecycle regular expression, counter equality", "§3 C16"),
  "C14": ("vp-e2e", "fault_enumeration",
-   "Generated stall schedules, each on a fresh real proxy (40 quick / 600 thorough): clients stalled after k bytes of a valid HTTP / SOCKS5 / SOCKS4 / SOCKS5+userpass handshake (k over every offset), tunnels blocked on a consumer that never reads, then API calls (status, live, history, rules GET/POST, metrics, logrotate) issued concurrently with fresh echo tunnels through every listener; everything must complete within 6 s (control phase < 1.5 s, else inconclusive). The hazard is a persistent state (a lock held while a client is silent), so once the stall set is installed a blocking defect shows deterministically.",
+   "Generated stall schedules, each on a fresh real proxy (40 quick / 600 thorough): clients stalled after k bytes of a valid HTTP / SOCKS5 / SOCKS4 / SOCKS5+userpass handshake (k over every offset), requests routed to an http / socks5 / socks4 / quic connector whose upstream goes silent after a strict prefix of its reply, tunnels blocked on a consumer that never reads, then API calls (status, live, history, rules GET/POST, metrics, logrotate) issued concurrently with fresh echo tunnels through every listener; everything must complete within 6 s (control phase < 1.5 s, else inconclusive). The hazard is a persistent state (a lock held while a client is silent), so once the stall set is installed a blocking defect shows deterministically.",
    "Trusted: wall-clock bound of 6 s against a control of milliseconds; stalls inside the TLS or QUIC handshake are not generated.",
    "generated fault schedules (stall points x API interleavings) against real processes, oracle = bounded completion", "§3 C14"),
  "C15": ("both", "exploration",
